@@ -142,7 +142,10 @@ def run(args):
             resid_ok = True
             if k == nsweeps and out.denergy is not None and out.denergy < 1e-11 and max(psi.get_bond_dimensions()) >= dim:
                 resid_ok = bool(np.linalg.norm(Hb2 @ v - Ed * v) <= 1e-5 * max(1.0, abs(Ed)))
-            ev.append({'op': 'dmrg_sweep', 'what': what + ' sweep %d' % k, 'E': int(round(out.energy * SC)), 'Edense': int(round(Ed * SC)) if Ed == Ed else -1, 'E0': int(round(E0 * SC)),
+            # known finding (root cause in eigs, C18): a state that already IS an eigenstate of the sector is handed to eigs as a (near-)invariant start vector; the undetected
+            # Krylov breakdown continues with rounding noise, the returned vector is wrong and the sweep RAISES the energy of a converged state
+            degraded = mono and out.energy > Eprev + 200 / SC and float(np.min(np.abs(evals - Eprev))) <= 1e-7 * max(1.0, abs(Eprev))
+            ev.append({'op': 'dmrg_sweep', 'what': ('KF-converged-state-degraded ' if degraded else '') + what + ' sweep %d' % k, 'E': int(round(out.energy * SC)), 'Edense': int(round(Ed * SC)) if Ed == Ed else -1, 'E0': int(round(E0 * SC)),
                        'Eprev': int(round(Eprev * SC)) if Eprev is not None else 0, 'monotone': bool(mono), 'tol': 200,
                        'verdicts': {'normalised': bool(abs(nv - 1) <= 1e-9), 'canonical_first': bool(psi.is_canonical(to='first')), 'same_sector': bool(tuple(t2) == tuple(t)),
                                     'eigenstate_when_converged_at_full_D': resid_ok, 'method_reported': bool(str(out.method) == meths[k - 1]), 'sweeps_reported': bool(out.sweeps == k)}})
@@ -271,6 +274,8 @@ def main(tier, seed, replay=None):
     rep.add_tlc('SweepsMC (all dmrg/tdvp schedules incl. every 12site decision sequence, N<=4, x precompute: fresh reads + time budget)', r)
     n = 48 if tier == 'quick' else 700
     jobs = [(i % len(FAMS), seed * 1000507 + i) for i in range(n)]
+    if not replay:
+        jobs.append(([i for i, f in enumerate(FAMS) if f[0] == 'SpinlessFermions' and f[1] == 'Z2'][0], 8004067))      # canonical reproducer of the known finding 'converged state degraded'
     with ProcessPoolExecutor(max_workers=14) as ex:
         evs = [e for lst in ex.map(run, jobs, chunksize=1) if lst for e in lst]
         evs += [e for lst in ex.map(run_converge, [(i % len(FAMS), seed * 1000531 + i) for i in range(n // 2)], chunksize=1) if lst for e in lst]
@@ -309,7 +314,7 @@ def main(tier, seed, replay=None):
     for t, rj in zip(traces, validate_traces.last_rejects):
         for l, why in rj:
             e = t['ev'][l - 1]
-            rep.violation('%s:%s' % (e['op'], e['what']), '%s (%s): %s' % (e['op'], e['what'], why[:600]), {'op': e['op'], 'what': e['what'], 'event': {k: v for k, v in e.items() if k not in ('events', 'cache')}})
+            rep.violation(('dmrg:converged-state-degraded-by-eigs:' if e['what'].startswith('KF-converged-state-degraded') else '') + '%s:%s' % (e['op'], e['what']), '%s (%s): %s' % (e['op'], e['what'], why[:600]), {'op': e['op'], 'what': e['what'], 'event': {k: v for k, v in e.items() if k not in ('events', 'cache')}})
     if any((not a) and not rj for a, rj in zip(acc, validate_traces.last_rejects)):
         raise Machinery('C09 trace neither accepted nor rejected')
     rep.cov['states'] += sum(x.distinct for x in res)
